@@ -9,6 +9,7 @@ import (
 	"path/filepath"
 	"runtime/debug"
 	"strings"
+	"sync/atomic"
 	"testing"
 	"time"
 
@@ -295,6 +296,9 @@ func (r *simReader) Read(p []byte) (int, error) {
 	return n, nil
 }
 
+// c09Hung: a parse of this process has not returned (confirmed twice).
+var c09Hung atomic.Bool
+
 type parseResult struct {
 	panic any
 	stack string
@@ -368,6 +372,13 @@ func (p *c09) Exec(t *testing.T, scAny any) Outcome {
 	}
 	out.Digest = hashKey(string(base))
 	judge := func(c C09Case) {
+		if c09Hung.Load() {
+			// a parse that never returns keeps its goroutine (and, when it spins, a processor)
+			// for the rest of this process: what follows would be judged on a crippled machine.
+			// The hang is reported; the rest of this worker's share is not run.
+			out.stat("not-judged.skipped-after-a-hang-in-this-process", 1)
+			return
+		}
 		data := applyMuts(base, other, c.Muts)
 		pr := parseOnce(data, c, ScratchDir)
 		narrowed := *sc
@@ -387,6 +398,7 @@ func (p *c09) Exec(t *testing.T, scAny any) Outcome {
 		case pr.hung:
 			// re-check once before reporting
 			if pr2 := parseOnce(data, c, ScratchDir); pr2.hung {
+				c09Hung.Store(true)
 				note("C09:hang:"+c.Entry, "parsing %d bytes via %s did not return within 10 s (twice)", len(data), c.Entry)
 			}
 		case pr.panic != nil:
